@@ -65,6 +65,8 @@ pub struct Coord {
     pub t0: Instant,
     pub deadline: Instant,
     pub quiet: bool,
+    /// runs that exceeded the wall-clock cap once and completed when executed again (machine stall, not a hang)
+    pub stall_retries: std::cell::Cell<u64>,
 }
 
 pub fn verif_dir() -> String {
@@ -87,6 +89,7 @@ impl Coord {
             t0: Instant::now(),
             deadline: Instant::now() + Duration::from_secs(budget_s),
             quiet: false,
+            stall_retries: std::cell::Cell::new(0),
         }
     }
 
@@ -104,7 +107,27 @@ impl Coord {
     }
 
     /// Run all specs (in parallel, results in spec order). Does not aggregate.
+    /// A run killed at the wall-clock cap is executed once more, alone: a run is a pure function of its
+    /// spec, so a genuine hang hangs again (and stays a harness error), while a run that was merely starved
+    /// by a stalled machine completes and is counted in `stall_retries`.
     pub fn exec(&self, specs: &[RunSpec], stop_at_deadline: bool) -> Vec<Option<RunOut>> {
+        let mut outs = self.exec_once(specs, stop_at_deadline);
+        let hung: Vec<usize> = (0..specs.len()).filter(|i| outs[*i].as_ref().map(|o| o.outcome == "hang").unwrap_or(false)).collect();
+        if !hung.is_empty() && hung.len() <= 64 {
+            for i in hung {
+                let again = self.exec_once(std::slice::from_ref(&specs[i]), false);
+                if let Some(Some(o)) = again.into_iter().next() {
+                    if o.outcome != "hang" {
+                        self.stall_retries.set(self.stall_retries.get() + 1);
+                        outs[i] = Some(o);
+                    }
+                }
+            }
+        }
+        outs
+    }
+
+    fn exec_once(&self, specs: &[RunSpec], stop_at_deadline: bool) -> Vec<Option<RunOut>> {
         let n = specs.len();
         let mut outs: Vec<Option<RunOut>> = (0..n).map(|_| None).collect();
         let mut next = 0usize;
@@ -561,6 +584,7 @@ pub fn write_evidence(co: &Coord, violations: u64, known_matched: &BTreeMap<Stri
             "components_real": co.def.real,
             "components_stub": co.def.stub,
             "harness_notes": a.harness.iter().take(10).collect::<Vec<_>>(),
+            "runs_re_executed_after_a_wall_clock_stall": co.stall_retries.get(),
         },
         "assumptions": co.def.assumptions,
         "wall_s": wall,
